@@ -25,8 +25,7 @@ def run(ctx):
     # oracle: the equation itself on ahbicht
     n_soll = 0
     for c in cases:
-        rc, h, fc = c["cer"]
-        evalimpl.set_cer(rc=rc, hints=h, fc=fc, packages=dict(valcorr.PACKAGES))
+        valcorr.reset_cer(c)
         word = "Muss" if c["soll"] else "Kann"
         has_soll = any(rewrite_soll(x, word) != x for n in c["lines"] for x in valcorr.all_exprs(n))
         lines2 = [valcorr.map_exprs(n, lambda x: rewrite_soll(x, word)) for n in c["lines"]]
